@@ -52,9 +52,8 @@ def run(ctx):
         for sbits in ([8] if ctx.quick else [8, 10]):
             vals = grid(sbits, rnd, ctx.quick)
             pairs = [(a, b) for a in vals for b in vals]
-            if ctx.quick:
-                zero_pairs = [(a, b) for a, b in pairs if a == 0.0 or b == 0.0]
-                pairs = rnd.sample(pairs, 110) + rnd.sample(zero_pairs, 12)
+            zero_pairs = [(a, b) for a, b in pairs if a == 0.0 or b == 0.0]
+            pairs = rnd.sample(pairs, 110 if ctx.quick else 500) + rnd.sample(zero_pairs, 12 if ctx.quick else 40)
             cases = []
             for a, b in pairs:
                 for op in OPS:
